@@ -91,6 +91,11 @@ func (d *Decoder) Decode(pkt *rtp.Packet) ([][]byte, error) {
 					return nil, fmt.Errorf("payload is too short")
 				}
 
+				if int(dataLen) > mpeg4audio.MaxAccessUnitSize {
+					return nil, fmt.Errorf("access unit size (%d) is too big, maximum is %d",
+						dataLen, mpeg4audio.MaxAccessUnitSize)
+				}
+
 				aus[i] = payload[:dataLen]
 				payload = payload[dataLen:]
 			}
